@@ -12,6 +12,7 @@ REPLAYS = os.path.join(VERIF, "replays")
 JPH = os.path.join(HARNESS, "bin", "jph")
 SPEC_EXE = os.path.join(LEAN, ".lake", "build", "bin", "jpv-spec")
 IMPL_EXE = os.path.join(LEAN, ".lake", "build", "bin", "jpv-impl")
+PEG_EXE = os.path.join(LEAN, ".lake", "build", "bin", "jpv-peg")
 
 GOENV = dict(os.environ, GOFLAGS="-mod=mod", GOPROXY="off", GOSUMDB="off", GOTOOLCHAIN="local",
              CGO_ENABLED=os.environ.get("CGO_ENABLED", "0"))
@@ -211,7 +212,7 @@ def prove(prop, cfg, log, thorough=False):
 
 def build_tools(log):
     """step 3: drivers and harness from the working tree"""
-    rc, out, _ = run(["lake", "build", "jpv-spec", "jpv-impl"], cwd=LEAN, timeout=3000)
+    rc, out, _ = run(["lake", "build", "jpv-spec", "jpv-impl", "jpv-peg"], cwd=LEAN, timeout=3000)
     drivers_ok = rc == 0
     if rc != 0:
         log.append(out)
@@ -251,7 +252,7 @@ def run_jph(prop, tier, seed, cfg, n=None, extra_args=None):
     out = os.path.join(EVID, "%s.t3.json" % prop)
     if os.path.exists(out):
         os.remove(out)
-    cmd = [JPH, "run", "-prop", prop, "-seed", str(seed), "-tier", tier, "-spec", SPEC_EXE, "-impl", IMPL_EXE,
+    cmd = [JPH, "run", "-prop", prop, "-seed", str(seed), "-tier", tier, "-spec", SPEC_EXE, "-impl", IMPL_EXE, "-peg", PEG_EXE,
            "-replays", REPLAYS, "-out", out, "-workers", str(cfg.get("workers", 12))]
     if n:
         cmd += ["-n", str(n)]
@@ -449,7 +450,7 @@ def do_replay(prop, cfg, path):
         return 2
     seed, idx, tier = body.get("seed", 1), body.get("case_index", 0), body.get("tier", "quick")
     out = os.path.join(EVID, "%s.replay.tmp" % prop)
-    cmd = [JPH, "run", "-prop", prop, "-seed", str(seed), "-tier", tier, "-spec", SPEC_EXE, "-impl", IMPL_EXE,
+    cmd = [JPH, "run", "-prop", prop, "-seed", str(seed), "-tier", tier, "-spec", SPEC_EXE, "-impl", IMPL_EXE, "-peg", PEG_EXE,
            "-replays", REPLAYS, "-out", out, "-from", str(idx), "-n", str(idx + 1), "-workers", "1"]
     rc, txt, _ = run(cmd, cwd=VERIF, env=GOENV, timeout=600)
     if rc != 0:
